@@ -53,6 +53,8 @@ def run(ctx):
     jobs.append({'seeds': ['C=C', 'CC'], 'rules': [SMARTS[0], SMARTS[6]], 'timeout': 300})
     jobs.append({'seeds': ['C=C'], 'rules': [SMARTS[4], SMARTS[6]], 'timeout': 300})
     jobs.append({'seeds': ['C'], 'rules': [SMARTS[0], RING[0]], 'timeout': 300})
+    # (acyclic seeds only: a reaction SMARTS with two product templates does not open a ring bond the way the RING edit does -
+    #  RDKit puts the still-connected molecule into each product template - so the two forms are not twins on rings)
     # twins: the same rule given as reaction SMARTS and as RING text (incl. scission written as `decrease bond order` on a single
     # bond) must generate the same network - an oracle for the closure that does not go through the RING edit primitives
     RING_DEC = ['rule dcc{ reactant r{ C? labeled c1 C? labeled c2 single bond to c1} decrease bond order (c1,c2) '
@@ -64,7 +66,7 @@ def run(ctx):
     twin_idx = []
     for k in range(ctx.n(8, 80)):
         a, b = TWINS[k % len(TWINS)]
-        seeds = rng.sample(['CC', 'CCC', 'C=C', 'CC=C', 'CCO', 'CO', 'C1CC1', 'CC(C)C'], rng.choice([1, 1, 2]))
+        seeds = rng.sample(['CC', 'CCC', 'C=C', 'CC=C', 'CCO', 'CO', 'CCCC', 'CC(C)C'], rng.choice([1, 1, 2]))      # acyclic: see note
         twin_idx.append((len(jobs), len(jobs) + 1))
         jobs.append({'seeds': seeds, 'rules': a, 'timeout': 300})
         jobs.append({'seeds': seeds, 'rules': b, 'timeout': 300})
